@@ -16,7 +16,7 @@ CORRESPONDENCE = ("Model.FGTree.{sort_by_pattern_len,is_subgroup,search_parents,
                   "fgutils.fgconfig.{sort_by_pattern_len,is_subgroup,search_parents,FGTreeNode.add_child,"
                   "build_config_tree_from_list}, FGConfigProvider.get_tree (roots as ordered list of names, every node's "
                   "children as ordered list of names, its parents as a set, exception class)")
-RULE = ("(a) random permutations of the default 32-group list (the model side permutes the GENERATED list Gen/FGDefault.v), built "
+RULE = ("every hierarchy is read AFTER a second hierarchy was built from every second of the same FGConfig objects (a held tree must not be rewired); (a) random permutations of the default 32-group list (the model side permutes the GENERATED list Gen/FGDefault.v), built "
         "through build_config_tree_from_list / FGConfigProvider(list of FGConfig) / FGConfigProvider(list of dicts); "
         "(a') the same construction routes plus FGConfigProvider(list, mapper=...) and the provider of FGQuery(config=list); "
         "(b') the systematic family of R-prefixed chains over {C,O} with up to 4 heavy atoms (30 patterns): the whole pool and random 5-8-element subsets "
